@@ -87,6 +87,14 @@ def run(chk):
             ids_ = sorted({'%s%05d' % (rnd.choice(['id', 'ID', 'x-']), rnd.randint(0, 99999)) for _ in range(4300)}) + ['%d.%d' % (k_, k_) for k_ in range(9)]
             given = ids_ if rnd.random() < 0.5 else {s_: rnd.randint(1, 2) for s_ in ids_}
             kw, sizekw = {'size': rnd.choice([0, False, Size_(use_sampling=False)])}, None
+        elif mode == 3 and i % 40 == 23:
+            # very long strings (the 'too many fragments' fallback describes them by length) that contain a line break
+            longs = ['-'.join([rnd.choice(['ab', 'cd', 'xy'])] * rnd.choice([55, 60, 60, 70])) for _ in range(2)]
+            longs = [l_[:40] + '\n' + l_[40:] for l_ in longs] + ['-'.join(['pq'] * 60)]
+            given = longs + rnd.sample(['ab', 'cd12', 'x-y', 'zz'], 2)
+            if rnd.random() < 0.5:
+                given = {s_: rnd.randint(1, 2) for s_ in given}
+            kw, sizekw = {}, None
         elif mode == 3 and i % 40 == 3:
             # values that end in a literal dollar, and values that go on after it
             cur = rnd.sample(['US', 'AU', 'NZ', 'CA', 'HK'], 3)
@@ -117,7 +125,7 @@ def run(chk):
         ev, r = coverage_event(tid, given, kw, sizekw, dedup, decoded=decoded if kw.get('encoding') else None)
         if ev is None:
             continue
-        if r['store_has_repeated_entries'] and sizekw is None:
+        if r['store_has_repeated_entries'] and sizekw is None and not ev['allmatched']:
             # an unmatched example (C03's finding) made the loop append failures it already had: the object's store lists
             # strings twice; C03 reports the witness, nothing is demanded here (Appendix A)
             chk.coverage['runs_skipped_because_C03_failed'] = chk.coverage.get('runs_skipped_because_C03_failed', 0) + 1
